@@ -13,6 +13,9 @@ from concurrent.futures import ThreadPoolExecutor
 ROOT = os.path.dirname(os.path.dirname(os.path.abspath(__file__)))
 
 
+SEED = None
+
+
 def one(sid, suite_missing, tier):
     d = os.path.join(ROOT, "seeded", sid)
     meta = json.load(open(os.path.join(d, "meta.json")))
@@ -21,10 +24,13 @@ def one(sid, suite_missing, tier):
            os.path.join(d, "demo.py"), "--needs", meta.get("needs", ""), "--tier", tier]
     if suite_missing and "suite_ok" not in meta:
         cmd.append("--suite")
+    if SEED is not None:
+        cmd += ["--seed", str(SEED)]
     p = subprocess.run(cmd, capture_output=True, text=True)
     try:
         m = json.load(open(os.path.join(d, "meta.json")))
-        return sid, m.get("demo_clean_exit"), m.get("demo_patched_exit"), m.get("suite_ok"), m.get("detected_by"), ""
+        det = m.get("detected_by") if SEED is None else m.get("by_seed", {}).get(str(SEED))
+        return sid, m.get("demo_clean_exit"), m.get("demo_patched_exit"), m.get("suite_ok"), det, ""
     except Exception as e:
         return sid, None, None, None, None, (p.stdout + p.stderr)[-400:]
 
@@ -34,8 +40,11 @@ def main():
     ap.add_argument("-j", type=int, default=6)
     ap.add_argument("--suite-missing", action="store_true")
     ap.add_argument("--tier", default="quick")
+    ap.add_argument("--seed", default=None, help="run the checks with this VERIF_SEED and record the result under meta['by_seed'] only")
     ap.add_argument("ids", nargs="*")
     a = ap.parse_args()
+    global SEED
+    SEED = a.seed
     ids = a.ids or sorted(x for x in os.listdir(os.path.join(ROOT, "seeded")) if os.path.exists(os.path.join(ROOT, "seeded", x, "meta.json")))
     missed = 0
     with ThreadPoolExecutor(a.j) as ex:
